@@ -3,7 +3,7 @@
   Model: Atomman/C08.lean (the loaders as coded) on top of Atomman/C07.lean (text layer, writers, independent
   parsers); loader tables: Atomman/Generated/LoadStyles.lean (regenerated from /repo on every run).
 -/
-import Proofs.C08_Sig
+import Proofs.C08_Data
 namespace Atomman.C08
 open Atomman Atomman.C07
 set_option linter.unusedSimpArgs false
@@ -46,6 +46,32 @@ theorem load_perm_invariant_table (s : Loaded) {rows₁ rows₂ : List Line} (co
     (hd : ∀ t, readTable rows₁ (colsWidth cols) usecols = .ok t → (t.map (rowKey i)).Nodup) :
     tableLoad s rows₁ cols usecols = tableLoad s rows₂ cols usecols :=
   tableLoad_perm s cols usecols i hp hid hd
+
+/-- **load_perm_invariant**: the `Atoms` section of a data file — the property table *and* the image-flag shifts,
+    both ordered by atom id — loads to the same system for every order of its atom lines, when the ids are
+    distinct.  (`load_perm_invariant_table` is the same for dump files, tables and the `Velocities` section.) -/
+theorem load_perm_invariant {rows₁ rows₂ : List Line} (atomsColumns : Nat) (s : Loaded) (style : String) (u : Units)
+    (hp : rows₁.Perm rows₂)
+    (hid : ∀ cols, lookupCols Gen.LoadStyles.atomStyles style u = .ok cols → idIndex cols = some 0)
+    (hd : ∀ cols t, lookupCols Gen.LoadStyles.atomStyles style u = .ok cols →
+      readTable rows₁ (colsWidth cols) true = .ok t → (t.map (rowKey 0)).Nodup)
+    (hdf : ∀ cols fl, lookupCols Gen.LoadStyles.atomStyles style u = .ok cols →
+      rows₁.mapM (readFlagRow (colsWidth cols)) = .ok fl → (fl.map (·.1)).Nodup) :
+    readAtoms rows₁ atomsColumns s style u = readAtoms rows₂ atomsColumns s style u :=
+  readAtoms_perm atomsColumns s style u hp hid hd hdf
+
+/-- in every atom_style the loader knows, the atom id is the first column (what the flag reader relies on). -/
+theorem atom_styles_id_first :
+    ∀ e ∈ Gen.LoadStyles.atomStyles, (e.2.head?).map (fun c => (c.1, c.2.1)) = some ("a_id", ["id"]) := by
+  decide +kernel
+
+/-- two atom lines in either order: same system (the hypotheses of `load_perm_invariant` are satisfiable). -/
+example :
+    (loadData "\n2 atoms\n1 atom types\n0 4 xlo xhi\n0 4 ylo yhi\n0 4 zlo zhi\n\nAtoms\n\n2 1 1.5 0.5 0.5 1 0 0\n1 1 0.5 0.5 0.5 0 0 -1\n".toList
+        ⟨true, true, true⟩ none none [("length", some 1)]) =
+    (loadData "\n2 atoms\n1 atom types\n0 4 xlo xhi\n0 4 ylo yhi\n0 4 zlo zhi\n\nAtoms\n\n1 1 0.5 0.5 0.5 0 0 -1\n2 1 1.5 0.5 0.5 1 0 0\n".toList
+        ⟨true, true, true⟩ none none [("length", some 1)]) := by
+  decide +kernel
 
 /-! ## comments and blank lines -/
 
@@ -108,6 +134,13 @@ theorem sigOf_trailing_comment (l c : List Char) (hl : l.all (· ≠ '#') = true
   simp [hk]
 
 example : sig [cs!"  # 5 atoms", cs!"3 atoms # c", cs!"", cs!" \t"] = [⟨[cs!"3", cs!"atoms"], none⟩] := by decide +kernel
+
+/-- **load_comment_blank_invariant (dump files)**: the dump-file loader sees a file only through its lines that have
+    terms; blank and white-space-only lines can be inserted or removed anywhere. -/
+theorem load_blank_invariant_dump (l₁ l₂ : List RawLine) (h : rowsOf false l₁ = rowsOf false l₂)
+    (symbols : Option (List (Option String))) (given : Option (List PCol)) (u : Units) :
+    loadDumpLines l₁ symbols given u = loadDumpLines l₂ symbols given u := by
+  rw [loadDumpLines_eq_rows, loadDumpLines_eq_rows, h]
 
 /-! ## a data file lacking a required item -/
 
@@ -174,5 +207,103 @@ theorem missing_section_rejected (lines : List RawLine) (pbc : V3 Bool) (symbols
 example : loadData "\n0 1 xlo xhi\n0 1 ylo yhi\n0 1 zlo zhi\n\nAtoms\n\n1 1 0.5 0.5 0.5\n".toList ⟨true, true, true⟩ none none
     [("length", some 1)] = .error "format" := by decide +kernel
 
+
+/-! ## load ∘ dump per format, composed with the C07 writer model -/
+
+/-- **load_dump_roundtrip_poscar**: loading any POSCAR file the writer emits returns `poscarLoaded`: the cell is
+    `scale × printed lattice rows` with origin 0, the atom types are `1, 2, …` repeated by the printed per-type
+    counts (the writer's grouping by type), the symbols are those of the symbols line (or the caller's), positions are
+    `scale × printed row` in Cartesian mode and `printed row · cell` in Direct mode.  With `C07.poscar_scale` the
+    scaled rows are the system's cell vectors and positions up to the printing of each number. -/
+theorem load_dump_roundtrip_poscar {f : Fmt} (hf : Readable f) (s : Sys) (header : List String)
+    (symbols : Option (List String)) (coordstyle : String) (scale : ℚ) (text : List Char)
+    (hw : writePoscar s header symbols coordstyle scale f = .ok text)
+    (hh : ∀ w ∈ header, ∀ c ∈ strTok w, c ≠ '\n')
+    (hsy : ∀ l, symbols = some l → (∀ w ∈ l, CleanTok (strTok w)) ∧ (l.map strTok).mapM parseInt? = none)
+    (hcs : CleanTok (strTok coordstyle))
+    (hlen : (poscarNums s (isCartStyle coordstyle) scale).coords.length =
+      (poscarNums s (isCartStyle coordstyle) scale).counts.foldr (· + ·) 0)
+    (hne : (poscarNums s (isCartStyle coordstyle) scale).coords ≠ [])
+    (symArg : Option (List (Option String))) :
+    loadPoscar text symArg =
+      .ok (poscarLoaded f scale (poscarNums s (isCartStyle coordstyle) scale).lattice
+        (poscarNums s (isCartStyle coordstyle) scale).counts (poscarNums s (isCartStyle coordstyle) scale).coords
+        (isCartStyle coordstyle)
+        (symArg.getD (match symbols with
+          | some l => l.map some
+          | none => (poscarNums s (isCartStyle coordstyle) scale).counts.map fun _ => none))) :=
+  loadPoscar_writePoscar hf s header symbols coordstyle scale text hw hh hsy hcs hlen hne symArg
+
+def exSysP : Sys :=
+  { box := ⟨⟨⟨4, 0, 0⟩, ⟨0, 8, 0⟩, ⟨0, 0, 2⟩⟩, ⟨0, 0, 0⟩⟩, pbc := ⟨true, true, true⟩, natypes := 2,
+    atype := [2, 1], pos := [⟨1, 2, 1⟩, ⟨3, 6, 1/2⟩], props := [] }
+
+def exP : Option Loaded :=
+  ((writePoscar exSysP ["x"] (some ["Al", "Cu"]) "cartesian" 2 (.fixed 3)).toOption).bind fun t => (loadPoscar t none).toOption
+
+/-- the hypotheses of `load_dump_roundtrip_poscar` are satisfiable and the conclusion is what the loader computes:
+    a two-atom system written in Cartesian mode with scale 2 comes back with its cell, symbols and positions (grouped
+    by type). -/
+example : exP.map (·.symbols) = some [some "Al", some "Cu"] := by decide +kernel
+example : exP.map (fun l => (l.prop? "pos").map (·.vals)) = some (some [[3, 6, 1/2], [1, 2, 1]]) := by decide +kernel
+example : exP.map (·.box.vects) = some ⟨⟨4, 0, 0⟩, ⟨0, 8, 0⟩, ⟨0, 0, 2⟩⟩ := by decide +kernel
+
+/-- **load_dump_roundtrip_dump_partial**: loading any dump file the writer emits ends the header loop in
+    `dumpState` — `NUMBER OF ATOMS`, the `pp` flags as periodic flags, the bounds with the tilt extents removed
+    (`dump_bounds_eq_independent`: the inversion of the LAMMPS manual), every number at its printed value times the
+    length unit — and reads exactly the written rows.  (`tableLoad_rowsDoc_sorted` then gives the numeric table:
+    printed values, sorted by atom id.) -/
+theorem load_dump_roundtrip_dump_partial {f : Fmt} (hf : Readable f) (s : Sys) (props : List (String × List Nat))
+    (u : Units) (ts : Int) (text : List Char) (hw : writeDump s props u f ts = .ok text)
+    (hnames : ∀ t ∈ dumpNames props, CleanTok t)
+    (symbols : Option (List (Option String))) (given : Option (List PCol)) :
+    ∃ lf rows, lengthFactor u = .ok lf ∧ tableRows s u (dumpIds s) s.pos (dumpCols props) [] = .ok rows ∧
+      hasDup (dumpIds s) = false ∧
+      ((∀ r ∈ rows, r ≠ []) →
+        loadDump text symbols given u = loadDumpCore (dumpState f lf s props) (some (rowsDoc f rows)) symbols given u) :=
+  loadDump_writeDump hf s props u ts text hw hnames symbols given
+
+/-- **load_dump_roundtrip_data_partial**: loading any data file the writer emits ends the first pass in `dataFP`
+    (atom count, bounds and tilts at their printed values times the length unit, the atom_style of the `Atoms`
+    comment, the width of the first atom line, the `Velocities` offset when there are velocities) and reads exactly
+    the written `Atoms` and `Velocities` rows. -/
+theorem load_dump_roundtrip_data_partial {f : Fmt} (hf : Readable f) (s : Sys) (style : String) (u : Units)
+    (text : List Char) (hw : writeData s style u f = .ok text)
+    (hwords : (styleWords style).map strTok ≠ [] ∧ ∀ t ∈ (styleWords style).map strTok, CleanTok t) :
+    ∃ lf p w, lengthFactor u = .ok lf ∧ dataParts s style u = .ok (p, w) ∧
+      (p.rows ≠ [] → (∀ r ∈ p.rows, r ≠ []) → (∀ vr, p.vel = some vr → ∀ r ∈ vr, r ≠ []) →
+        ∀ pbc symbols styleArg, loadData text pbc symbols styleArg u =
+          (fpFinish (dataFP f lf ((styleWords style).map strTok) p) false).bind fun fp =>
+            loadDataCore fp (dataRowsA f p) (p.vel.map (rowsDoc f)) pbc symbols styleArg u) :=
+  loadData_writeData hf s style u text hw hwords
+
+/-- **load_dump_roundtrip_table_partial**: the text `table.dump` writes is read back as exactly the written rows,
+    one atom per row; with `tableLoad_rowsDoc` (ids `1..N` are already in order) the numeric table is the printed
+    values, assigned column group by column group. -/
+theorem load_dump_roundtrip_table_partial {f : Fmt} (hf : Readable f) (s : Sys) (cols : List ColSpec) (u : Units)
+    (header : Bool) (text : List Char) (hw : writeTable s cols u f header = .ok text)
+    (hnames : ∀ t ∈ (cols.map fun c => c.names.map strTok).flatten, CleanTok t)
+    (hn0 : (cols.map fun c => c.names.map strTok).flatten ≠ []) :
+    ∃ rows, tableRows s u (seqIds s.natoms) s.pos cols [] = .ok rows ∧
+      ((∀ r ∈ rows, r ≠ []) → ∀ box pcols,
+        loadTable text box pcols header =
+          tableLoad (Loaded.init box ⟨true, true, true⟩ rows.length [] []) (rowsDoc f rows) pcols false) :=
+  loadTable_writeTable hf s cols u header text hw hnames hn0
+
+/-- every `%.nf` format is readable (C07: `parseNum_fmtFixed`), so the theorems above apply to the default
+    `'%.13f'` and to every fixed-point `float_format`. -/
+theorem fixed_formats_readable (n : Nat) : Readable (.fixed n) := readable_fixed n
+
+/-- a data file as the writer lays it out, atom lines not in id order, one atom wrapped through the x and y faces. -/
+def exText : List Char :=
+  "\n2 atoms\n2 atom types\n0.0 4.0 xlo xhi\n0.0 8.0 ylo yhi\n0.0 2.0 zlo zhi\n\nAtoms # atomic\n\n2 2 1.25 0.5 0.125 1 -1 0\n1 1 0.5 1.25 1.0 0 0 0\n".toList
+
+def exLoaded : Option Loaded := (loadData exText ⟨true, true, true⟩ none none [("length", some 1)]).toOption
+
+/-- it loads, in id order, the wrapped atom back at its unwrapped position through the image flags. -/
+example : exLoaded.map (·.natoms) = some 2 := by decide +kernel
+example : exLoaded.map (fun l => (l.prop? "pos").map (·.vals)) = some (some [[1/2, 5/4, 1], [21/4, -15/2, 1/8]]) := by
+  decide +kernel
+example : exLoaded.map (fun l => (l.prop? "atype").map (·.vals)) = some (some [[1], [2]]) := by decide +kernel
 
 end Atomman.C08
